@@ -212,6 +212,7 @@ func runC20(c *Ctx) {
 	checkSynNoDial(c)
 	checkE2eOverride(c, sackMethods)
 	checkOptionScan(c)
+	checkRecvVerdictGuard(c)
 	_ = R
 }
 
@@ -573,6 +574,11 @@ func checkClassSurvives(c *Ctx) {
 	for _, e := range sum {
 		if strings.Contains(e.Tags, "NotSupported") && e.SiteFn != nil {
 			got[core.FuncName(e.SiteFn)] = true
+			// the verdict is not hidden behind a retryable wrapper in its own chain: the engines ask CheckProbeRetryable
+			// (errors.As over the whole chain) first, and would skip the packet instead of ending the run with the verdict
+			if e.Retryable() {
+				R.Fail("R20.3", "doSack#verdict-masked["+core.FuncName(e.SiteFn)+"]", e.SitePos, core.FuncName(e.SiteFn), "the NotSupportedError created in "+core.FuncName(e.SiteFn)+" carries a retryable wrapper in its chain (tags "+e.Tags+", cause "+e.Origin+"): the engine's CheckProbeRetryable finds it with errors.As and skips the packet, so the capability verdict never ends the SACK run and prefer_sack never falls back")
+			}
 		}
 		if !e.Wrapped && e.Fn != nil {
 			lost[e.Origin] = true
@@ -752,7 +758,9 @@ func judgeE2eParams(c *Ctx, fn string, sackMethods []string, pt *core.Term, atom
 			}
 			// MinTTL = MaxTTL (C19 R19.4 shares this)
 			mn, mx := core.ProjField(pt, "MinTTL"), core.ProjField(pt, "MaxTTL")
-			R.Check(mn.Key() == mx.Key(), "R20.5", fn+"#single-probe", pos, fn, "MinTTL = MaxTTL for e2e probes", "e2e probe does not set MinTTL = MaxTTL: "+mn.String()+" vs "+mx.String())
+			// both ends are the request's MaxTTL (the probe must reach the destination): MinTTL := MaxTTL, not the reverse
+			untouchedMax := mx.Op == "field" && mx.Name == "MaxTTL" && len(mx.Args) == 1 && (mx.Args[0].Op == "param" || mx.Args[0].Op == "free" || mx.Args[0].Op == "recv")
+			R.Check(mn.Key() == mx.Key() && untouchedMax, "R20.5", fn+"#single-probe", pos, fn, "MinTTL = MaxTTL = the request's MaxTTL for e2e probes", "e2e probe does not run with MinTTL = MaxTTL = the request's MaxTTL: MinTTL is "+mn.String()+", MaxTTL is "+mx.String()+" (a probe sent with a smaller TTL expires on the way and is counted as lost although the destination would answer)")
 		}
 	}
 }
@@ -794,4 +802,64 @@ func ctorResultParam(g *ssa.Function) int {
 		}
 	}
 	return -1
+}
+
+// checkRecvVerdictGuard is R20.7: 'acknowledgements without SACK blocks' is a statement about a plain ACK of the probed
+// connection. On every inlined path of the SACK driver's ReceiveProbe that returns a NotSupportedError the segment was established
+// to be on the flow (outer pair, ports) and to be neither SYN, FIN nor RST – the same guards the accept path of a selective ACK
+// carries. A late SYN-ACK retransmission, a FIN or a RST carries no SACK block either and must not produce the verdict.
+func checkRecvVerdictGuard(c *Ctx) {
+	R := c.R
+	var d Driver
+	found := false
+	for _, x := range Drivers(c.P) {
+		if x.Pkg == "sack" {
+			d, found = x, true
+		}
+	}
+	if !found {
+		R.Fail("R20.7", "sack#driver", 0, "", "the SACK driver no longer resolves")
+		return
+	}
+	roles := roleTable[d.Name]
+	f := d.ReceiveProbe
+	fn := core.FuncName(f)
+	n := 0
+	for _, ip := range InlinedPaths(c.P, f, inlineOpts{pkg: core.FuncPkg(f), stop: hasLoop, maxDepth: 4}) {
+		if len(ip.Results) < 2 || ip.Results[1] == nil {
+			continue
+		}
+		isVerdict := ip.Results[1].Has(func(x *core.Term) bool {
+			al, ok := x.Val.(*ssa.Alloc)
+			return ok && x.Op == "alloc" && isNamed(al.Type(), core.ModulePath+"/sack", "NotSupportedError")
+		})
+		if !isVerdict {
+			continue
+		}
+		n++
+		var missing []string
+		for _, a := range flagAssignments(ip.Atoms) {
+			if a["SYN"] || a["FIN"] || a["RST"] {
+				missing = append(missing, "SYN, FIN and RST all clear")
+				break
+			}
+		}
+		eqs := pathEqs(ip.Atoms)
+		for name, chk := range map[string]struct {
+			pk   func(*core.Term) bool
+			role string
+		}{"outer source = target": {isOuterSrcAddr, roles.TargetAddr}, "TCP source port = target port": {isTCPSrcPort, roles.TargetPort}, "TCP destination port = local port": {isTCPDstPort, roles.LocalPort}} {
+			if findEq(eqs, chk.pk, chk.role) == nil {
+				missing = append(missing, name)
+			}
+		}
+		sort.Strings(missing)
+		key := fn + "#recv-verdict-guard"
+		if len(missing) == 0 {
+			R.OK("R20.7", key, ip.Ret.Pos(), fn, "the 'no SACK blocks' verdict is raised only for a plain ACK on the probed flow")
+		} else {
+			R.FailPath("R20.7", key, ip.Ret.Pos(), fn, "a NotSupportedError can be returned for a segment without: "+strings.Join(missing, "; ")+" – such a segment (a retransmitted SYN-ACK, a FIN, a RST, another flow) carries no SACK block either, so a SACK-capable target is reported as unsupported and prefer_sack falls back although SACK is available", ip.Desc)
+		}
+	}
+	R.Floor("R20.7:recv-verdict-paths", n, 1)
 }
